@@ -6,6 +6,7 @@ import Parsley.Spec.Spelling
 import Parsley.Spec.SpellingWF
 import Parsley.Spec.NumLit
 import Parsley.Spec.DecLit
+import Parsley.Spec.NameLit
 namespace Driver.C02
 open Parsley Parsley.Prim Parsley.Obj Parsley.Spelling Driver
 
@@ -25,6 +26,12 @@ open Parsley Parsley.Prim Parsley.Obj Parsley.Spelling Driver
                                                    reference whose numbers sit at a digit-count / integer-type boundary;
                                                    expected value by `refDenote` / Spec/NumLit.lean / Spec/DecLit.lean;
                                                    judged like `sp` (texts of the family that are not an object: `nolit`)
+    `hash <d> <hex> <len> <lead> <expected sexp…>` a text around a name token that carries raw `#` bytes (a `#` NOT followed by two
+                                                   hexadecimal digits: a literal byte for Parsley) next to real `#xx` codes, bare /
+                                                   as dictionary key / as value / in arrays; expected name by Spec/NameLit.lean
+                                                   (`nameDenote`); judged like `sp` (two spellings of one name as keys of one
+                                                   dictionary: `dup`)
+    `nohash <d> <hex>`                             such a text whose name token contains the code `#00`: must be rejected
     `cut <d> <hex> <r>`                            a strict prefix of a legal spelling (the rest lies behind the window of a
                                                    view case): whatever is accepted lies inside the buffer; with r = 1 (a
                                                    string, array or dictionary cut before its closing delimiter) it must be
@@ -53,6 +60,107 @@ def winOf : List String → Option Bytes
 
 def model (line : String) : String := Views.model winOf modelPlain line
 
+/-! ### raw `#` in names
+
+  In a name token `#` followed by two hexadecimal digits is a code for one byte; ANY OTHER `#` is the literal byte `#`
+  (Spec/NameLit.lean; the encoder `spell` always writes that byte as `#23`, so its spellings never contain one).  The
+  family below writes name tokens that mix real codes with raw `#` at every position where it cannot start a code -
+  last byte, second-to-last byte before a hex digit or another byte, before one hex digit and one non-hex byte, `##`,
+  directly before each delimiter - by enumerating ALL symbol sequences of length 1..6 over {A, #, 4, 1, G, `#41`}
+  (`4`, `1` hex digits, `G` not; `#41` a code; `#`,`4`,`1` also meet by juxtaposition), and over {A, #, 0, `#00`, `#41`}
+  for the null code.  The expected name comes from `NameLit.nameDenote` alone.  Every token is placed bare before every
+  following context (the generator's 15 + the remaining delimiters), as dictionary key, dictionary value, array element,
+  next to a second spelling of the same name (all bytes as codes / all bytes raw): in an array both are that name, as two
+  keys of one dictionary the text must be rejected.
+
+  The texts of the family around one token are a pure function of the token (`hashTexts`); the judge RECOGNISES the
+  text of a `hash` / `nohash` case as a member of the family and takes the expectation from there (a case line whose
+  text is not a member - e.g. a candidate of the shrinker - is never counted against the implementation). -/
+
+def hashLeads : List Bytes := [[], [32], bs "%c\n ", [13, 10]]
+
+/-- byte strings in dictionary (lexicographic, unsigned) order -/
+def lexLt : Bytes → Bytes → Bool
+  | [], [] => false
+  | [], _ :: _ => true
+  | _ :: _, [] => false
+  | x :: s, y :: t => x < y || (x == y && lexLt s t)
+
+/-- every text of the family around the name token `tok` (the bytes after `/`) with what it denotes (`none`: it is not
+    an object and must be rejected - a `#00` code in a name, or one name twice as key of a dictionary); the first
+    text is the bare token -/
+def hashTexts (tok : Bytes) : List (Bytes × Option Obj) :=
+  let nm : Bytes := 47 :: tok
+  let den := NameLit.nameDenote tok
+  let b := den.getD []
+  let vname : Obj := .name b
+  let forms : List (Bytes × Obj) :=
+    [(nm, vname),
+     -- array element
+     (bs "[" ++ nm ++ bs "]", .arr [vname]),
+     (bs "[1 " ++ nm ++ bs "(s)]", .arr [.int 1, vname, .str (bs "s")]),
+     (bs "[" ++ nm ++ nm ++ bs " 1]", .arr [vname, vname, .int 1]),
+     -- dictionary key
+     (bs "<<" ++ nm ++ bs " 1>>", .dict [(b, .int 1)]),
+     (bs "<<" ++ nm ++ bs "(v)>>", .dict [(b, .str (bs "v"))]),
+     (bs "<<" ++ nm ++ bs "[" ++ nm ++ bs "]>>", .dict [(b, .arr [vname])]),
+     (bs "<<" ++ nm ++ bs " 1/Zz 2>>", .dict (if lexLt b (bs "Zz") then [(b, .int 1), (bs "Zz", .int 2)] else [(bs "Zz", .int 2), (b, .int 1)])),
+     -- dictionary value; key and value
+     (bs "<</K" ++ nm ++ bs ">>", .dict [(bs "K", vname)]),
+     (bs "<<" ++ nm ++ nm ++ bs "\n>>", .dict [(b, vname)]),
+     (bs "[<<" ++ nm ++ bs " 7 0 R>>" ++ nm ++ bs "]", .arr [.dict [(b, .ref 7 0)], vname])]
+  match den with
+  | none => forms.map fun f => (f.1, none)
+  | some _ =>
+    -- a second spelling of the same name: every byte as a code; every byte raw (when that denotes the name)
+    let alts : List Bytes := ([NameLit.allCodes b] ++
+      (if b.all isRegularByte && NameLit.nameDenote b == some b then [b] else [])).filter (· != tok)
+    (forms.map fun f => (f.1, if f.1 == bs "<<" ++ nm ++ bs " 1/Zz 2>>" && b == bs "Zz" then none else some f.2)) ++
+    alts.flatMap fun alt =>
+      let am : Bytes := 47 :: alt
+      [(bs "[" ++ nm ++ am ++ bs "]", some (.arr [vname, vname])),
+       (bs "<<" ++ nm ++ bs " 1" ++ am ++ bs " 2>>", none),
+       (bs "<<" ++ am ++ bs "(x)" ++ nm ++ bs "[]>>", none),
+       (bs "[<</K 1" ++ nm ++ bs " 1 /L 2 " ++ am ++ bs " 2>>]", none)]
+
+/-- the name tokens of a text without strings and comments: after each `/` the run of regular characters -/
+def nameToks : Bytes → List Bytes
+  | [] => []
+  | b :: t => (if b == 47 then [t.takeWhile isRegularByte] else []) ++ nameToks t
+
+/-- is `buf` = lead ++ text ++ rest (lead `lead` bytes, text up to `len`) a case of the family - a lead of the
+    generator, a text of `hashTexts` of one of its own name tokens, and (after a bare token) no regular character
+    behind it?  Then: what the text denotes. -/
+def hashMember (buf : Bytes) (len lead : Nat) : Option (Option Obj) :=
+  if len > buf.length || lead > len || !(hashLeads.contains (buf.take lead)) then none
+  else
+    let sp := (buf.take len).drop lead
+    let restOK := match (buf.drop len).head? with | none => true | some y => !isRegularByte y
+    (nameToks sp).findSome? fun tok =>
+      (hashTexts tok).findSome? fun te =>
+        if te.1 == sp && (te.1 != 47 :: tok || restOK) then some te.2 else none
+
+def judgeHash (tag hex len lead : String) (sexp : List String) (impl : String) : String :=
+  match bytesOfHex hex, len.toNat?, lead.toNat? with
+  | some buf, some l, some ld =>
+    match hashMember buf l ld with
+    | none => "bad generator-outside-family the text is not one of the raw-# family"
+    | some (some v) =>
+      let want := s!"ok {ld} {l} {l} {objSexp v}"
+      if tag != "hash" || " ".intercalate sexp != objSexp v then "bad generator-outside-family expectation differs from the family's"
+      else if impl.trimAscii.toString == want then "ok"
+      else if impl.startsWith "ok" then s!"bad wrong-value-or-cursor want={want}"
+      else if impl.startsWith "err" then s!"bad legal-spelling-rejected want={want}"
+      else "bad panic-or-crash"
+    | some none =>
+      if tag != "nohash" then "bad generator-outside-family expectation differs from the family's"
+      else if impl.startsWith "err" then "ok"
+      else if impl.startsWith "ok" then
+        (if (nameToks ((buf.take l).drop ld)).any (fun t => NameLit.nameDenote t == none) then "bad null-code-in-name-accepted"
+         else "bad duplicate-key-accepted two spellings of one name")
+      else "bad panic-or-crash"
+  | _, _, _ => "bad-case"
+
 def judgePlain (case impl : String) : String :=
   match words case with
   | "sp" :: _ :: _ :: len :: lead :: sexp | "lit" :: _ :: _ :: len :: lead :: sexp
@@ -67,6 +175,8 @@ def judgePlain (case impl : String) : String :=
   | "genbad" :: _ => "bad generator-outside-domain"
   | "nolit" :: _ =>
     if impl.startsWith "err" then "ok" else if impl.startsWith "ok" then "bad non-object-accepted" else "bad panic-or-crash"
+  | "hash" :: _ :: hex :: len :: lead :: sexp => judgeHash "hash" hex len lead sexp impl
+  | "nohash" :: _ :: hex :: len :: lead :: _ => judgeHash "nohash" hex len lead [] impl
   | "mut" :: _ =>
     if impl.startsWith "panic" || impl.startsWith "crash" then "bad panic-or-crash"
     else if impl.startsWith "ok" && sexpHasNullEntry impl then
@@ -509,6 +619,92 @@ def hasNumKvs : List (Bytes × Obj) → Bool
   | (_, v) :: t => hasNum v || hasNumKvs t
 end
 
+/-! ### raw `#` in names: the generator (texts and judge: `hashTexts`, `judgeHash` above) -/
+
+def hashSyms : List Bytes := [bs "A", bs "#", bs "4", bs "1", bs "G", bs "#41"]
+def nullSyms : List Bytes := [bs "A", bs "#", bs "0", bs "#00", bs "#41"]
+/-- symbols of the random tokens: more hex digits of either case, non-hex letters, a high byte, codes in either case,
+    codes of delimiters / whitespace / `#` itself / NUL, near-codes -/
+def rndSyms : List Bytes :=
+  [bs "A", bs "#", bs "4", bs "1", bs "G", bs "a", bs "F", bs "f", bs "g", bs ".", bs "-", [0x80], bs "#41", bs "#4a", bs "#4A",
+   bs "#7e", bs "#23", bs "#2F", bs "#20", bs "#00", bs "#FF", bs "#0a", bs "#4G", bs "#g1", bs "##", bs "#", bs "#"]
+
+/-- all sequences of `n` symbol indices of an alphabet of `a` symbols -/
+def idxSeqs (a : Nat) : Nat → List (List Nat)
+  | 0 => [[]]
+  | n + 1 => (idxSeqs a n).flatMap fun t => (List.range a).map fun i => i :: t
+
+def hasSub (pat : List Nat) : List Nat → Bool
+  | [] => pat.isEmpty
+  | x :: t => pat.isPrefixOf (x :: t) || hasSub pat t
+
+/-- the tokens of exactly `n` symbols that contain a `#`; sequences in which the symbols `skip` meet (they spell a
+    symbol of their own: `#`,`4`,`1` = `#41`) are left to that symbol -/
+def hashTokens (syms : List Bytes) (skip : List Nat) (n : Nat) : List Bytes :=
+  (((idxSeqs syms.length n).filter fun s => !hasSub skip s).map fun s => s.flatMap fun i => syms[i]?.getD []).filter (·.contains 35)
+
+/-- the following contexts of a name: the generator's, and the delimiters / whitespace bytes it lacks -/
+def hashCtxs : List Bytes := contexts ++ [bs ")", bs ">", bs "{", bs "}", bs "\t", bs "\x0c", bs "/", bs "%"]
+
+def hashCase (lead text ctx : Bytes) (e : Option Obj) : String :=
+  match e with
+  | some e => s!"hash 5 {hexOfBytes (lead ++ text ++ ctx)} {lead.length + text.length} {lead.length} {objSexp e}"
+  | none => s!"nohash 5 {hexOfBytes (lead ++ text ++ ctx)} {lead.length + text.length} {lead.length}"
+
+/-- one name token in every position.  `lvl` 2: everything; 1: a rotating part of the contexts, every text;
+    0: a rotating part of contexts and texts. -/
+def hashForms (emit : String → IO Unit) (lvl : Nat) (k : Nat) (tok : Bytes) : IO Unit := do
+  let lead := hashLeads[k % 4]?.getD []
+  match hashTexts tok with
+  | [] => pure ()
+  | (bare, e) :: texts =>
+    -- bare, before the following contexts
+    let ctxs := if lvl ≥ 2 then hashCtxs
+      else ((List.range 4).map fun i => contexts[(k + 4 * i) % contexts.length]?.getD []) ++
+           ((List.range 2).map fun i => hashCtxs[contexts.length + (k + 3 * i) % 8]?.getD [])
+    for ctx in ctxs do
+      emit (hashCase lead bare ctx e)
+    let after := contexts[k % contexts.length]?.getD []
+    let mut j := 0
+    for (text, e) in texts do
+      j := j + 1
+      if lvl ≥ 1 || j % 4 == k % 4 then emit (hashCase lead text after e)
+
+/-- a random token of 1..8 symbols of `rndSyms` that contains a `#` -/
+def rndHashTok (r : Rng) : Bytes × Rng :=
+  let (n, r) := r.nat 8
+  let (t, r) := (List.range (n + 1)).foldl (fun (acc : Bytes × Rng) _ =>
+    let (sy, r) := acc.2.pick rndSyms; (acc.1 ++ sy, r)) (([] : Bytes), r)
+  (if t.contains 35 then t else t ++ [35], r)
+
+def hashSweep (emit : String → IO Unit) (full : Bool) (seed : Nat) : IO Unit := do
+  let mut k := 0
+  -- every sequence of 1..4 (thorough 1..5) symbols, in every position
+  for n in List.range (if full then 5 else 4) do
+    for tok in hashTokens hashSyms [1, 2, 3] (n + 1) do
+      k := k + 1
+      hashForms emit (if full then 2 else 1) k tok
+  -- the null code: every sequence of 1..3 (thorough 1..5) symbols
+  for n in List.range (if full then 5 else 3) do
+    for tok in hashTokens nullSyms [1, 2, 2] (n + 1) do
+      k := k + 1
+      hashForms emit (if full then 2 else 1) k tok
+  -- 5 and 6 symbols: quick 300 random sequences; thorough every sequence of 6 (a rotating part of contexts and texts)
+  if full then
+    for tok in hashTokens hashSyms [1, 2, 3] 6 do
+      k := k + 1
+      hashForms emit 0 k tok
+  else
+    let mut r := Rng.mk' (seed + 4241)
+    for _ in List.range 300 do
+      let (n, r1) := r.nat 2
+      let (t, r2) := (List.range (5 + n)).foldl (fun (acc : Bytes × Rng) _ =>
+        let (sy, r) := acc.2.pick hashSyms; (acc.1 ++ sy, r)) (([] : Bytes), r1)
+      r := r2
+      if t.contains 35 then
+        k := k + 1
+        hashForms emit 0 k t
+
 /-! ### every case once more on a restricted view (Driver/Views.lean)
 
   Each case line is followed by its view twin.  Axes, cycled by the running case counter `c` with pairwise coprime
@@ -538,7 +734,7 @@ def viewTwin (c : Nat) (line : String) (cont : Option Bytes) : Option String :=
         match rest with
         | len :: _ =>
           match len.toNat? with
-          | some l => if (tag == "sp" || tag == "lit" || tag == "pad") && c % 3 == 0 && l > 0 && l ≤ buf.length
+          | some l => if (tag == "sp" || tag == "lit" || tag == "pad" || tag == "hash") && c % 3 == 0 && l > 0 && l ≤ buf.length
                       then some (" ".intercalate (tag :: d :: hexOfBytes (buf.take l) :: rest), l, buf.drop l) else none
           | none => none
         | [] => none
@@ -604,6 +800,7 @@ def gen (seed n : Nat) (tier : String) (emit0 : String → IO Unit) : IO Unit :=
   numLits emit (tier == "thorough")
   decLits emit (tier == "thorough")
   padSweep emit (tier == "thorough")
+  hashSweep emit (tier == "thorough") seed
   let mut r := Rng.mk' seed
   for i in List.range n do
     let (v, r1) := rndObj 4 r
@@ -626,6 +823,10 @@ def gen (seed n : Nat) (tier : String) (emit0 : String → IO Unit) : IO Unit :=
       let (pbody, _) := padSpell sv pch
       let psp := lead ++ pbody
       emit s!"pad {d} {hexOfBytes (psp ++ ctx)} {psp.length} {lead.length} {objSexp v}"
+    -- a random name token with raw `#` bytes and codes of any kind (own random stream)
+    if i % 16 == 0 then
+      let (t, _) := rndHashTok (Rng.mk' (seed * 77 + i + 9))
+      hashForms emit 1 i t
     -- a single-byte mutation / truncation of the same spelling (correspondence + no-panic + no-null-entry)
     let (mk, r7) := r.nat 3
     let (pos, r8) := r7.nat (sp.length + 1)
@@ -653,7 +854,9 @@ def nontrivialPlain (line : String) : Bool :=
   | "sp" :: _ :: hex :: _ => hex.length ≥ 8
   | "lit" :: _ :: hex :: _ => hex.length ≥ 8
   | "pad" :: _ :: hex :: _ => hex.length ≥ 8
+  | "hash" :: _ :: hex :: _ => hex.length ≥ 8
   | "nolit" :: _ => true
+  | "nohash" :: _ => true
   | "dup" :: _ => true
   | "mut" :: _ :: hex :: _ => hex.length ≥ 8
   | _ => false
